@@ -45,6 +45,23 @@ def generate(tier, rng):
             e.variants.append(VSpec(ident='Borrowed', kind='tuple', ftypes=['RefStr', 'u8']))
         e.extra['shape'] = 'n=%d gen=%s' % (nvar, e.generics)
         enums.append(e)
+    # tiny enums: one enabled variant alone, with one or two disabled ones (before / after), two enabled, zero-field tuple
+    for j, shape in enumerate([('E',), ('E', 'D'), ('D', 'E'), ('D', 'E', 'D'), ('E', 'E'), ('D', 'D', 'E'), ('E', 'D', 'D')]):
+        for kind in ('unit', 'tuple1', 'tuple0', 'named'):
+            e = ESpec(id='c13t%d%s' % (j, kind), name='EnC13t%d%s' % (j, kind), derives=['EnumIs', 'EnumTryAs'], feats=['is', 'tryas', 'absent'])
+            for i, s in enumerate(shape):
+                if kind == 'unit' or (s == 'D' and i % 2):
+                    v = VSpec(ident='Tiny%d' % i)
+                elif kind == 'tuple1':
+                    v = VSpec(ident='Tiny%d' % i, kind='tuple', ftypes=['u8'])
+                elif kind == 'tuple0':
+                    v = VSpec(ident='Tiny%d' % i, kind='tuple', ftypes=[])
+                else:
+                    v = VSpec(ident='Tiny%d' % i, kind='named', ftypes=['u8'], fnames=['alpha'], fdw=[None])
+                v.dis = (s == 'D')
+                e.variants.append(v)
+            e.extra['shape'] = 'tiny %s %s' % (''.join(shape), kind)
+            enums.append(e)
     # the model tells the harness which methods exist and what they are called
     lines = []
     for e in enums:
